@@ -4,3 +4,11 @@ from vlib import smt
 
 def l_roundup(tier):
     return smt.lemma_roundup()
+
+
+def i_restart(tier):
+    return smt.lemma_restart()
+
+
+def l_clock(tier):
+    return smt.lemma_clock_kernels()
